@@ -40,6 +40,7 @@ let () = register "xpath" (fun words ->
       let doc = ref [] in
       let raw = ref [||] in
       let out = ref [] in
+      let sup = ref [] in
       List.iter (fun sec ->
           match sec with
           | "B" :: nb :: rest ->
@@ -56,6 +57,7 @@ let () = register "xpath" (fun words ->
             toks := ast;
             let e = r_or () in
             if !toks <> [] then raise (Bad "trailing tokens");
+            sup := (if supported_b !ctx.c_ns e then "1" else "0") :: !sup;
             let (r, c') = query !doc e !ctx in
             ctx := c';
             let s = (match r with
@@ -68,5 +70,6 @@ let () = register "xpath" (fun words ->
           | w :: _ -> raise (Bad ("section " ^ w))) secs;
       let b x = if x then 1 else 0 in
       let inv = Printf.sprintf "I %d%d%d%d%d" (b (doc_wf_b !doc)) (b (doc_inv_b !doc)) (b (spec_shape_b !doc)) (b (names_ok_b !doc)) (b (parents_ok_b !doc)) in
-      String.concat " # " (List.rev (inv :: !out))
+      let s = "S " ^ String.concat "" (List.rev !sup) in
+      String.concat " # " (List.rev (s :: inv :: !out))
     with Bad s -> "badast " ^ s | Failure s -> "badinput " ^ s)
